@@ -261,13 +261,26 @@ pub fn families() -> Vec<Box<dyn Family>> {
                     // the same diff object is asked several times with other radii first
                     let _ = d.grouped_ops(NS[(idx % 14) as usize]);
                     let _ = d.grouped_ops(1);
-                    (ops, n, d.grouped_ops(n))
+                    // the unified-diff formatter groups with its context radius; one formatter object
+                    // is re-configured between two uses
+                    let mut u = d.unified_diff();
+                    u.context_radius(NS[(idx % 7) as usize]);
+                    let _ = u.iter_hunks().count();
+                    u.context_radius(n);
+                    let hunks: Vec<Vec<DiffOp>> = u.iter_hunks().map(|h| h.ops().to_vec()).collect();
+                    (ops, n, d.grouped_ops(n), hunks)
                 });
                 out.eval();
                 match r {
                     Err(p) => out.violation("panic", format!("TextDiff::grouped_ops panicked: {} | old={} new={}", p, fmt_seq(&a), fmt_seq(&b))),
-                    Ok((ops, n, groups)) => {
+                    Ok((ops, n, groups, hunks)) => {
                         let expect = reference_groups(&ops, n);
+                        if strip_empty_equal(&hunks) != expect {
+                            out.violation(
+                                "group.hunks_differ_from_reference",
+                                format!("UnifiedDiff::iter_hunks with context_radius({}) (set after an earlier use with another radius) ops={} | hunks {} | reference {}", n, fmt_ops(&ops), fmt_groups(&hunks), fmt_groups(&expect)),
+                            );
+                        }
                         let got = strip_empty_equal(&groups);
                         if got != expect {
                             out.violation(
@@ -289,7 +302,8 @@ pub fn families() -> Vec<Box<dyn Family>> {
             1,
             |cfg| if cfg.tiny { 0 } else { cfg.tier.pick(1, 2) },
             |idx, _cfg, out| {
-                let n_tokens = (1usize << 23) + 3 + idx as usize;
+                // N even and >= 2^23: 2N and 2N+1 are the same f32, the similarity ratio of this diff is exactly 1.0
+                let n_tokens = (1usize << 23) + 4 + 4 * idx as usize;
                 let old: Vec<&str> = vec!["x\n"; n_tokens];
                 let mut new = old.clone();
                 new.push("y\n");
